@@ -3,6 +3,7 @@ import RjModel.Props.C03
 import RjModel.Props.C11
 import RjModel.Generated.SlashTable
 import RjModel.Lemmas.SyncLemmas
+import RjModel.Lemmas.ListingLemmas
 import RjModel.Lemmas.DoerLemmas
 /-! # C01 — a successful sync makes the destination a mirror of the source
 
@@ -196,6 +197,21 @@ theorem C01_mirror_fs {fs0 : FS} {r : FPath} {ld : List (FPath × Node)} {src : 
       fs'.get r = some .folder ∧
       ∀ p, p ≠ [] → MirrorAt fs0 fs' r p (src p) :=
   sync_mirror hw hs
+
+/-- **… with the destination's own listing**: the assumptions about the destination listing are met by
+the model's own listing function (`C17_listing_exact_fs`), so for a file-system value with one entry per
+path, a root folder with folder ancestors and a tree-closed destination below it, the sync on the
+listing the doer model itself produces ends in the mirror state. -/
+theorem C01_mirror_fs_own_listing (fs0 : FS) (hwf : fs0.Wf) (r : FPath)
+    (hroot : fs0.get r = some .folder) (hanc : ∀ k, k < r.length → fs0.get (r.take k) = some .folder)
+    (hclosed : ∀ p, p ≠ [] → fs0.get (r ++ p) ≠ none → fs0.get (r ++ p.dropLast) = some .folder)
+    (f : Nat) (hfuel : ∀ p, fs0.get (r ++ p) ≠ none → p.length ≤ f)
+    {src : FPath → Option SEntry} {ls : List (FPath × SEntry)} (hs : SrcWF src ls) :
+    ∃ fs', syncDest fs0 r src ls ((listNodes fs0 f r).map fun e => (e.1.drop r.length, e.2)) = .ok fs' ∧
+      (∀ q, ¬ r <+: q → fs'.get q = fs0.get q) ∧
+      fs'.get r = some .folder ∧
+      ∀ p, p ≠ [] → MirrorAt fs0 fs' r p (src p) :=
+  sync_mirror (destWF_of_listNodes fs0 hwf r hroot hanc hclosed f hfuel) hs
 
 /-- how an entry of the file-system model appears in a listing (`entry_details_from_metadata`; the
 link kind `k` is whatever the probe gives: a unix destination does not compare it) -/
